@@ -393,3 +393,32 @@ V('c19-exc-not-recorded', 'C19', 'C19.R4',
   '')
 V('c19-observer-raises', 'C19', 'C19.R1',
   (RECF, "        self._pywbem_method = method\n        if self.enabled and self.api_detail_level is not None and \\\n                self.apilogger.isEnabledFor(logging.DEBUG):", "        self._pywbem_method = method\n        if not kwargs:\n            raise ValueError('no arguments')\n        if self.enabled and self.api_detail_level is not None and \\\n                self.apilogger.isEnabledFor(logging.DEBUG):"), 'ValueError')
+
+# ---- C10 / C11 --------------------------------------------------------------
+STOREF = 'pywbem_mock/_inmemoryrepository.py'
+IWPF = 'pywbem_mock/_instancewriteprovider.py'
+DISPF = 'pywbem_mock/_providerdispatcher.py'
+NSPF = 'pywbem_mock/_namespaceprovider.py'
+V('c10-update-nocopy', 'C10', 'C10.R1',
+  (STOREF, "        self._data[name] = deepcopy(cim_object)\n\n    def delete", "        self._data[name] = cim_object\n\n    def delete"), 'no-copy')
+V('c10-get-nocopy', 'C10', 'C10.R2',
+  (STOREF, "            if copy:\n                return deepcopy(self._data[name])\n            return self._data[name]", "            return self._data[name]"), 'uncopied')
+V('c10-default-copy', 'C10', 'C10.R2',
+  (STOREF, "    def iter_values(self, copy=True):", "    def iter_values(self, copy=False):"), 'default')
+V('c10-borrowed-returned', 'C10', 'C10.R3',
+  (BASEF, "        insts = [self._get_bare_instance(inst.path, instance_store, copy=True)", "        insts = [self._get_bare_instance(inst.path, instance_store)"), '')
+V('c10-borrowed-mutated', 'C10', 'C10.R3',
+  (IWPF, "        creation_class = class_store.get(InstanceName.classname, copy=False)\n", "        creation_class = class_store.get(InstanceName.classname, copy=False)\n        creation_class.qualifiers.pop('Description', None)\n"), '')
+V('c10-dispatcher-nocopy', 'C10', 'C10.R5',
+  (DISPF, "        new_instance = deepcopy(NewInstance)", "        new_instance = NewInstance"), 'caller-object-used')
+V('c10-getinstance-nocopy', 'C10', 'C10.R5',
+  (MAINF, "        rtn_inst = self._get_bare_instance(instance_name, instance_store,\n                                           copy=True)", "        rtn_inst = self._get_bare_instance(instance_name, instance_store,\n                                           copy=False)"), '')
+V('c10-wrong-key', 'C10', 'C10.R4',
+  (IWPF, "            instance_store.update(modified_instance.path, modified_instance)", "            instance_store.update(path, original_instance)"), 'key')
+V('c11-write-before-validate', 'C11', 'C11.R1',
+  (MAINF, "        # Add new class to CIM repository\n        class_store.create(new_class.classname, new_class)", "        # Add new class to CIM repository\n        class_store.create(new_class.classname, new_class)\n        self._validate_dependencies_exist(new_class, class_store, namespace)"), 'CreateClass')
+V('c11-setqualifier-check-after', 'C11', 'C11.R1',
+  (MAINF, "            qualifier_store.delete(QualifierName)\n        else:", "            qualifier_store.delete(QualifierName)\n            self.validate_namespace(namespace)\n        else:"), 'DeleteQualifier')
+V('c11-multins-validate-in-write-loop', 'C11', 'C11.R1',
+  (IWPF, "        # Modify the instance path for each namespace\n        for ns, path in modified_instance_paths.items():\n            instance_store = self.cimrepository.get_instance_store(ns)\n",
+         "        # Modify the instance path for each namespace\n        for ns, path in modified_instance_paths.items():\n            instance_store = self.cimrepository.get_instance_store(ns)\n            _ = self.get_required_class(modified_instance, ns)\n"), 'modify_multi_namespace_instance')
